@@ -74,13 +74,14 @@ Theorem raw_header_cut_flow_sample f n hdr rate pool drops inif outif flen strip
   let s := {| sKind := SFlowS; sHdr := hdr; sVals := [rate; pool; drops; inif; outif; 1];
               sRecs := [mk_header 1 flen stripped (firstn n (encode_frame f))] |} in
   exists m, convert_sf empty_pcfg s = Ok m /\ cols_ok (sample_base rate inif outif flen) m f /\ layers_ok m f /\
-            complete_ok (sample_base rate inif outif flen) m f (length (firstn n (encode_frame f))).
+            complete_ok (sample_base rate inif outif flen) m f (length (firstn n (encode_frame f))) /\
+            tags_ok (sample_base rate inif outif flen) m f.
 Proof.
   intros Hwf s. unfold convert_sf, s. cbn [sKind sVals sRecs sf_records]. unfold vv. cbn [nth].
   unfold mk_header, EncSFlow.mk, fix_rec. cbn [rKind rVals rBlobs rFmt rLists]. unfold sf_record. cbn [rKind rVals rBlobs].
   unfold vv, bb. cbn [nth N.eqb Pos.eqb].
-  destruct (any_cut_on (sample_base rate inif outif flen) f n Hwf (sample_base_ok rate inif outif flen)) as (m & Hp & Hc & Hl & Hk).
-  unfold sample_base in Hp. rewrite Hp. exists m. split; [reflexivity|]. split; [exact Hc|]. split; [exact Hl|exact Hk].
+  destruct (any_cut_on (sample_base rate inif outif flen) f n Hwf (sample_base_ok rate inif outif flen)) as (m & Hp & Hc & Hl & Hk & Ht).
+  unfold sample_base in Hp. rewrite Hp. exists m. split; [reflexivity|]. split; [exact Hc|]. split; [exact Hl|]. split; [exact Hk|exact Ht].
 Qed.
 
 Theorem raw_header_cut_expanded_sample f n hdr rate pool drops infmt inif outfmt outif flen stripped :
@@ -88,24 +89,25 @@ Theorem raw_header_cut_expanded_sample f n hdr rate pool drops infmt inif outfmt
   let s := {| sKind := SExpFlowS; sHdr := hdr; sVals := [rate; pool; drops; infmt; inif; outfmt; outif; 1];
               sRecs := [mk_header 1 flen stripped (firstn n (encode_frame f))] |} in
   exists m, convert_sf empty_pcfg s = Ok m /\ cols_ok (sample_base rate inif outif flen) m f /\ layers_ok m f /\
-            complete_ok (sample_base rate inif outif flen) m f (length (firstn n (encode_frame f))).
+            complete_ok (sample_base rate inif outif flen) m f (length (firstn n (encode_frame f))) /\
+            tags_ok (sample_base rate inif outif flen) m f.
 Proof.
   intros Hwf s. unfold convert_sf, s. cbn [sKind sVals sRecs sf_records]. unfold vv. cbn [nth].
   unfold mk_header, EncSFlow.mk, fix_rec. cbn [rKind rVals rBlobs rFmt rLists]. unfold sf_record. cbn [rKind rVals rBlobs].
   unfold vv, bb. cbn [nth N.eqb Pos.eqb].
-  destruct (any_cut_on (sample_base rate inif outif flen) f n Hwf (sample_base_ok rate inif outif flen)) as (m & Hp & Hc & Hl & Hk).
-  unfold sample_base in Hp. rewrite Hp. exists m. split; [reflexivity|]. split; [exact Hc|]. split; [exact Hl|exact Hk].
+  destruct (any_cut_on (sample_base rate inif outif flen) f n Hwf (sample_base_ok rate inif outif flen)) as (m & Hp & Hc & Hl & Hk & Ht).
+  unfold sample_base in Hp. rewrite Hp. exists m. split; [reflexivity|]. split; [exact Hc|]. split; [exact Hl|]. split; [exact Hk|exact Ht].
 Qed.
 
 (* IPFIX dataLinkFrameSection (element 315) carrying a frame captured at ANY length *)
 Theorem ipfix_frame_section_cut f n m0 base up :
   wf_frame f = true -> base_ok m0 ->
   exists m1, parse_packet empty_pcfg m0 (firstn n (encode_frame f)) = Ok m1 /\ cols_ok m0 m1 f /\ layers_ok m1 f /\
-    complete_ok m0 m1 f (length (firstn n (encode_frame f))) /\
+    complete_ok m0 m1 f (length (firstn n (encode_frame f))) /\ tags_ok m0 m1 f /\
     nf_field empty_prodcfg 10 base up m0 315 (firstn n (encode_frame f)) =
     Ok (let m2 := msetI m1 cPackets 1 in if mgetI m2 cBytes =? 0 then msetI m2 cBytes (lenN (firstn n (encode_frame f))) else m2).
 Proof.
-  intros Hwf Hb. destruct (any_cut_on m0 f n Hwf Hb) as (m1 & Hp & Hc & Hl & Hk).
-  exists m1. split; [exact Hp|]. split; [exact Hc|]. split; [exact Hl|]. split; [exact Hk|].
+  intros Hwf Hb. destruct (any_cut_on m0 f n Hwf Hb) as (m1 & Hp & Hc & Hl & Hk & Ht).
+  exists m1. split; [exact Hp|]. split; [exact Hc|]. split; [exact Hl|]. split; [exact Hk|]. split; [exact Ht|].
   unfold nf_field. cbn [N.eqb Pos.eqb empty_prodcfg pPacket]. rewrite Hp. reflexivity.
 Qed.
